@@ -142,6 +142,10 @@ pub fn handle_replace(
         std::fs::create_dir_all(&renamify_dir).context("Failed to create .renamify directory")?;
     }
 
+    // Mutating command: hold the workspace lock while the tree is being changed
+    let _lock = renamify_core::LockFile::acquire(&renamify_dir)
+        .context("Failed to acquire lock for renamify operation")?;
+
     // Apply the plan
     let apply_options = renamify_core::ApplyOptions {
         create_backups: true,
